@@ -13,17 +13,29 @@ PID = "C15"
 PROPS_MODULE = "NumbersModel.Props.C15"
 THEOREMS = [f"NumbersModel.Props.C15.{t}" for t in (
     "open_view_lww", "open_view_lww_from", "saved_view_lww", "open_eq_saved", "load_establishes_inv", "shared_edge_both_sides",
-    "api_total_in_range", "fingerprint_injective", "dedup_shares_only_equal", "reading_is_pure")]
+    "api_total_in_range", "fingerprint_injective", "dedup_shares_only_equal", "reading_is_pure",
+    "colour_roundtrip", "colour_roundtrip_binary32", "font_name_roundtrip", "style_attributes_after_reload_quantized",
+    "style_attributes_after_reload", "style_attributes_after_reload_binary32", "updated_style_reads_back",
+    "shared_cell_style_reads_back", "style_archives_injective", "saved_cell_style_ids", "restyled_cell_reads_back")]
 PARTIAL = {
-    "style_attributes_after_reload": "that each of the 15 attributes is stored in and read from the right archive field "
-                                     "(protobuf paragraph/cell style messages, float32 fields, colours as r/255) is not a theorem; "
-                                     "it is exercised by the oracle on every generated style (open and after reopen)"}
+    "document_level_save_loop": "style_attributes_after_reload is proved per cell from the archives the writers produce and the ids "
+                                "_to_buffer assigns (restyled_cell_reads_back, shared_cell_style_reads_back, saved_cell_style_ids); "
+                                "the loops around them - update_paragraph_styles over Document.styles, update_cell_styles' dict loop "
+                                "allocating object ids with create_object_from_dict, Style objects shared by reference between cells - "
+                                "are not composed into one theorem over a whole save (missing: store/heap invariants: fresh object ids, "
+                                "objects written earlier are not overwritten, image table only grows). The existing dedup theorems "
+                                "cover the grouping; the composition is exercised by the storage tie and the oracle"}
 RULE = ("borders: seeded histories of 4..40 strokes (side, start cell, length 1..6, payload from a palette of widths x colours x "
         "4 patterns; biased to a few rows/columns so that strokes overlap, abut and supersede; Border objects partly re-used) on "
         "5x5..12x8 tables with 0..3 merged rectangles, cut into 1..3 segments by save/reopen; one protocol line per segment "
         "(initial layers are read from the real file). styles: N styles x M cells over fonts x sizes x RGB x 5x3 alignments x "
         "indents x inset x wrap x bg colour/image. Non-trivial = a segment with at least two strokes sharing a unit edge, or a "
-        "style case with at least two distinct styles; distinct by protocol line / style set")
+        "style case with at least two distinct styles; distinct by protocol line / style set. storage tie: 1..3 styles with all 15 "
+        "attributes explicit (colour components from 0/1/127/128/254/255, the 15 alignment pairs in rotation, fonts from "
+        "FONT_FAMILY_TO_NAME, sizes/indents incl. values binary32 cannot hold, colour / image / no fill) applied to cells of a new "
+        "document or of a fixture, saved; archives decoded from the package with protobuf; then attributes (also the name) of a saved "
+        "style changed and saved again; plus every cell (capped 14x10 per table) of the fixture documents read through "
+        "Style.from_storage; plus exhaustive tables (alignment names, 188 font families, channel values 0..255)")
 ASSUMPTIONS = [
     "a stroke payload (width, colour, pattern) is an opaque number in the model; that the payload itself survives protobuf "
     "(float32 width read back with round(.,2), colour as round(r/255*255)) is exercised for every stroke, not proved",
@@ -33,6 +45,13 @@ ASSUMPTIONS = [
     "same stroke (checked on every fixture table the run touches)",
     "style floats are drawn from binary32-representable values (file-format limit, known finding style-float-not-binary32)",
     "image file names are unique per document (Document.add_style refuses a second image of the same name)",
+    "protobuf: a float field holds the binary32 nearest (ties to even) to the Python float assigned, HasField is true exactly for "
+    "members that were assigned / parsed, an unset member reads as its descriptor default (regenerated constants); Python float "
+    "division / product are correctly rounded binary64 and round() is half-even - modelled as Num.ieee over the rationals and tied "
+    "by exact comparison of every stored float (as a fraction) with the model's; the theorems take the roundings as a parameter",
+    "style storage: super.style_identifier, override_count, the constant colour members (model, a, rgbspace) and the image-fill "
+    "technique are not in the model's records (never read back); the model's image table is the images interned in the session "
+    "(_images) - existing `datas` entries matter only for reading",
 ]
 MANIFEST = {
     "text": "Core proved, glue assumed. Lean theorems over a model of CellBorder setters/_order stamps, cell_for_stroke, "
@@ -42,8 +61,19 @@ MANIFEST = {
             "edge (open_view_lww), what extract_strokes reads from the stored layers is the same (saved_view_lww, open_eq_saved), "
             "both cells adjacent to an edge report the same stroke (shared_edge_both_sides); the style de-duplication key is "
             "injective (fingerprint_injective, dedup_shares_only_equal) and a style that was only read is not written "
-            "(reading_is_pure). Attribute-by-attribute storage of styles in protobuf is checked by the oracle only (partial).",
-    "note": "stroke payloads are opaque; protobuf/float32 glue is exercised, not proved. The pinned commit violated the property "
+            "(reading_is_pure). Style storage path (Model/StyleStore.lean): paragraph-style and cell-style archive records, "
+            "add_paragraph_style / update_paragraph_style / add_cell_style, the readers with their one-level parent look-up and "
+            "protobuf defaults, rgb(), Alignment name maps, create_font_name_map, Style.from_storage, the style ids of _to_buffer. "
+            "For every style with colour components 0..255, enum alignments and one fill, a cell pointed at the archives written "
+            "for it reads back exactly that style, attribute by attribute, floats as binary32 holds them (style_attributes_after_"
+            "reload[_quantized|_binary32], updated_style_reads_back, restyled_cell_reads_back); archives of different styles differ "
+            "(style_archives_injective); sharing a cell archive through the fingerprint is sound (shared_cell_style_reads_back); "
+            "cells without a style object keep their ids (saved_cell_style_ids); round(f32(c/255)*255) = c for 0..255 under a "
+            "2^-24 relative-error hypothesis over the rationals (colour_roundtrip) and for correctly rounded binary32/64 "
+            "(colour_roundtrip_binary32); the font map is inverted by the reader (font_name_roundtrip). Partial: the composition of "
+            "these per-cell facts over the whole save loop (object-id allocation, Style objects shared by reference).",
+    "note": "stroke payloads are opaque (their protobuf glue is exercised, not proved); style archives are tied field by field to "
+            "the saved package decoded with protobuf, every float compared as an exact fraction. The pinned commit violated the property "
             "(second stroke ignored in memory, fingerprint collision, style read marks dirty -> gradient save crash); repaired "
             "by fixes/C15-*.patch; the model mirrors the repaired code and keeps the pinned variants as counter-examples.",
     "technique": "Lean 4 proof (invariant over stroke histories, refinement to a last-writer-wins edge map) + differential "
@@ -976,6 +1006,32 @@ def storage_case(sub: Ctx, seed: int, h: int):
                     st.left_indent = rng.choice(TIE_FLOATS)
             doc.save(path)
             view2 = PackageView(path)
+            # the style ids `_to_buffer` wrote in this second save, cell by cell in row-major order, from the list the first
+            # save left behind; cells that carry no `_style` must keep their ids
+            tm2 = view2.pp.objects[tb2._table_id]
+            ids2 = view2.cell_ids(tm2)
+            sl1 = view.style_list(tm)
+            order = [(r, c) for r in range(nr) for c in range(nc)]
+            if all(rc in ids and rc in ids2 for rc in order):
+                words = [str(max([k_ for k_, _ in sl1], default=0) + 1), str(len(sl1))] + [str(x) for kv in sl1 for x in kv] + [str(len(order))]
+                reply = []
+                for (r, c) in order:
+                    cell = tb._data[r][c]
+                    t_id, c_id = ids[(r, c)]
+                    words += [str(r), str(c)] + w_opt(t_id is not None, [str(t_id)]) + w_opt(c_id is not None, [str(c_id)])
+                    if cell._style is None:
+                        words += ["N"]
+                    else:
+                        a, b = cell._style._text_style_obj_id, cell._style._cell_style_obj_id
+                        words += ["S"] + w_opt(a is not None, [str(a)]) + w_opt(b is not None, [str(b)])
+                    t2, c2 = ids2[(r, c)]
+                    reply += w_opt(t2 is not None, [str(t2)]) + w_opt(c2 is not None, [str(c2)])
+                    if cell._style is None and (t2, c2) != (t_id, c_id):
+                        sub.violation("unstyled-cell-style-ids-changed", f"cell ({r},{c}) carries no style object but its saved style ids "
+                                      f"changed from {(t_id, c_id)} to {(t2, c2)} in the second save", where)
+                sl2 = view2.style_list(tm2)
+                lines.append((" ".join(["style", "ids"] + words),
+                              "ok " + " ".join(reply) + " | " + " ".join([str(len(sl2))] + [str(x) for kv in sl2 for x in kv])))
             oid, old = first_para[k]
             new = view2.pp.objects.get(oid)
             if new is None:
